@@ -185,7 +185,7 @@ def gen_datagram(rng, directed=False, kinds=None):
             ty = rng.choice([3, 4, 5, 7, 100, 4095])
         else:
             body, tree = bytes(rng.randrange(256) for _ in range(rng.choice([0, 4, 8, 36]))), None
-            ty = (rng.choice([1, 9, 4413, 1048575]) << 12) | rng.choice([1, 2, 3])
+            ty = (rng.choice([1, 9, 4413, 1048575] + [1 << k for k in range(20)]) << 12) | rng.choice([1, 2, 3])   # incl. every single enterprise bit
         wire += struct.pack(">II", ty, len(body)) + body
         samples.append((ty, k, tree))
     hdr = {"Version": 5, "IPVersion": 2 if v6 else 1, "AgentSubID": sub, "SequenceNo": seq, "SysUpTime": up, "SamplesNo": len(kinds),
